@@ -50,6 +50,53 @@ def check_findings(ctx):
             ctx.notes.append(f"known finding {fid} no longer reproduces on its witness")
 
 
+def spelling_programs():
+    """several types in ONE physical file that their `export_to` attributes spell differently, referring to each other"""
+    from gen_corpus import P, N, OPT, VEC
+    progs = []
+    for v, spells in enumerate([["models/shared.ts", "models/v2/../shared.ts", "./models/shared.ts"], ["a/b/../all.ts", "a/all.ts", "a/./all.ts"], ["one.ts", "./one.ts", "x/../one.ts"]]):
+        A = {"kind": "struct", "name": f"SpA{v}", "shape": "named", "attrs": {"export_to": spells[0]}, "generics": [], "fields": [{"name": "x", "ty": P("u8"), "attrs": {}}]}
+        B = {"kind": "struct", "name": f"SpB{v}", "shape": "named", "attrs": {"export_to": spells[1]}, "generics": [],
+             "fields": [{"name": "a", "ty": N(A["name"]), "attrs": {}}, {"name": "o", "ty": OPT(N(f"SpO{v}")), "attrs": {}}]}
+        C = {"kind": "struct", "name": f"SpC{v}", "shape": "named", "attrs": {"export_to": spells[2]}, "generics": [],
+             "fields": [{"name": "b", "ty": VEC(N(B["name"])), "attrs": {}}, {"name": "a", "ty": N(A["name"]), "attrs": {}}]}
+        O = {"kind": "struct", "name": f"SpO{v}", "shape": "named", "attrs": {}, "generics": [], "fields": [{"name": "y", "ty": P("bool"), "attrs": {}}]}
+        R = {"kind": "struct", "name": f"SpR{v}", "shape": "named", "attrs": {"export_to": "deep/er/"}, "generics": [],
+             "fields": [{"name": "c", "ty": N(C["name"]), "attrs": {}}, {"name": "b", "ty": N(B["name"]), "attrs": {}}]}
+        items = [A, B, C, O, R]
+        progs.append({"items": items, "probes": [{"ty": N(it["name"]), "values": []} for it in items]})
+    return progs
+
+
+def check_spellings(ctx, c):
+    progs = spelling_programs()
+    real, _ = e2e.build_and_run(ctx, "c03s", progs)
+    if real is None:
+        return 0
+    model = e2e.run_model_programs(progs, c.chars, os.path.join(vlib.SCRATCH, "e2e-c03s"))
+    for prog, R, M in zip(progs, real, model or []):
+        for pr, r, m in zip(prog["probes"], R, M):
+            for k in ("export_to_string", "output_path"):
+                if r.get(k) != m.get(k):
+                    ctx.broken.append(f"compiled correspondence (file spellings): {pr['ty']['id']} {k}: impl={json.dumps(r.get(k))[:300]} model={json.dumps(m.get(k))[:300]}")
+                    break
+    n = 0
+    for how in ("to", "env"):
+        steps, trees = e2e.run_export(ctx, "c03s", how, os.path.join(vlib.SCRATCH, "c03s", how))
+        for pi, prog in enumerate(progs):
+            n += 1
+            tree = dict(trees.get(f"p{pi}", {}))
+            probs = tsparse.closure_problems({posixpath.normpath("base/" + k): v for k, v in tree.items() if k.endswith(".ts")})
+            st = steps[pi] if pi < len(steps) else []
+            if any(x != "ok" for x in st):
+                probs.append(f"export returned {st}")
+            if probs:
+                ctx.violation("an exported directory is not closed: " + "; ".join(probs[:3]), {"items": prog["items"], "entry": how}, {"files": {k: v[:800] for k, v in tree.items()}})
+    ctx.stream("one file under several spellings", n, len(progs), "three types whose export_to attributes spell the same file differently (`..`, `./`, `.` segments), referring to each other, to a type in its own file, "
+               "and referred to from a nested directory; export_all_to and TS_RS_EXPORT_DIR; closure oracle (in particular: no file imports from itself); model = implementation on export_to_string", [], {})
+    return n
+
+
 def run(ctx):
     proof = vlib.lean_check(ctx)
     c = corpus.get(ctx)
@@ -95,6 +142,7 @@ def run(ctx):
     for eid, (e, p) in known_hit.items():
         ctx.known_finding(e, p[:300])
     check_findings(ctx)
+    check_spellings(ctx, c)
     ctx.stream("exported directories (compiled corpus) judged by an independent TypeScript reader", total, nontriv,
                f"{len(c.programs)} programs x {{export_all_to(absolute dir), export_all() with TS_RS_EXPORT_DIR, export_all_to(dir with dot segments)}}: every root exported with its dependencies; "
                "placements: default, directory form, shared file, nested, `../` escape; generics, defaults, inline/flatten/as, cycles; oracle: every used name imported exactly once, "
